@@ -749,8 +749,8 @@ theorem await_not_running {s : PState} (c : Completion) (hf : s.flushing.isSome)
     | some f => exact (complete_of_flushing c hff).1
   · simp only [hr]; simpa using hr
 
-theorem inv2_clear {s : PState} {sp : Spec} (h : Inv2 s sp) (hr : s.running = false) (fl : Bool) :
-    Inv2 { s with flushing := none, errCh := none, failed := fl } sp where
+theorem inv2_clear {s : PState} {sp : Spec} (h : Inv2 s sp) (hr : s.running = false) (fl : Bool)
+    (le : Option Reported) : Inv2 { s with flushing := none, errCh := none, failed := fl, lastErr := le } sp where
   mbufEq := h.mbufEq
   stagesEq := h.stagesEq
   histEq := h.histEq
@@ -822,7 +822,7 @@ theorem inv2_doFlush {s : PState} {sp : Spec} (force : Bool) (mem : Nat) (late :
     have h2 := inv2_await late h1
     have hnr : (await { s with cache := none } late).running = false := await_not_running late hf
     rcases flushAfterWait_cases (await { s with cache := none } late) with ⟨_, he⟩ | ⟨_, he⟩
-    · rw [he]; exact inv2_clear h2 hnr true
+    · rw [he]; exact inv2_clear h2 hnr true _
     · rw [he]
       obtain ⟨rpc, ho⟩ := (start_fields (await { s with cache := none } late)).2.2.2.2.2.2.2.2.2.2.2
       rw [ho]
@@ -843,8 +843,8 @@ theorem inv2_doFlushWait {s : PState} {sp : Spec} (late : Completion) (h : Inv2 
     have h2 := inv2_await late h
     have hnr := await_not_running (s := s) late hf
     rcases waitAfter_cases (await s late) with ⟨_, he⟩ | ⟨_, he⟩
-    · rw [he]; exact inv2_clear h2 hnr true
-    · rw [he]; exact inv2_clear h2 hnr _
+    · rw [he]; exact inv2_clear h2 hnr true _
+    · rw [he]; exact inv2_clear h2 hnr _ _
   · rw [hd]; exact h
 
 theorem inv2_step {s : PState} {sp : Spec} (op : Op) (h : Inv2 s sp) :
